@@ -367,6 +367,10 @@ func main() {
 		o.Case()
 		keysetCase(o, fork(rng, "kcase"), c)
 	}
+	if !hlib.Pre() {
+		// large segments at the keyset level: Go-side oracle, no requests to the model (nothing after this point asks)
+		bigKeysetSection(o, fork(rng, "big"))
+	}
 	negativeOffsetProbe(o)
 }
 
